@@ -29,7 +29,7 @@ func (fr *FuncRun) heapAddrTerm(a Addr) string {
 		key := "fa:" + t
 		if !fr.assumed[key] && !hasBound(t) {
 			fr.assumed[key] = true
-			fr.emit(fmt.Sprintf("(assert (and (= (fa_tag %s) %d) (= (fa_base %s) %s) (< %s 0)))", t, fr.w.faTag(x.Struct, x.Idx), t, base, t))
+			fr.emit(fmt.Sprintf("(assert (and (= (fa_tag %s) %d) (= (fa_base %s) %s) (< %s 0) (= (fa_root %s) (ite (> %s 0) %s (fa_root %s)))))", t, fr.w.faTag(x.Struct, x.Idx), t, base, t, t, base, base, base))
 		}
 		return t
 	}
@@ -169,6 +169,8 @@ func rootFresh(a Addr) bool {
 		return rootFresh(x.Base)
 	case IndexOf:
 		return rootFresh(x.Base)
+	case ElemOf:
+		return x.Fresh
 	}
 	return false
 }
